@@ -71,10 +71,12 @@ package run
 //@   ensures result != nil && isfresh(result)
 //@   ensures forall s int :: s != ref(result) ==> sinkowner[s] == old(sinkowner[s])
 //@ extern func (o base.Orchestrator) Shutdown()
+//@   flag counted
 //@   modifies nothing
 // a downstream sink may only be used while downstreamMutex is held: a reload (write side) closes the sinks and shuts their
 // orchestrator down, and must not do so in the middle of an Accept / Tick / Close of a connection goroutine
 //@ extern func (s base.BufferReceiverSink) Close()
+//@   flag counted
 //@   requires[sink-is-used-under-the-lock] lockheld
 //@   modifies nothing
 //@ extern func (s base.BufferReceiverSink) Tick()
